@@ -1574,7 +1574,10 @@ void Handler::handleIdentifiedArg( detail::TypedArgBase* hdl,
                                    const string& value)
 {
 
-   mConstraints.argumentIdentified( key);
+   // the constraints were defined with whatever key (short and/or long) the
+   // application chose: match them against the argument, not against the
+   // spelling used on the command line
+   mConstraints.argumentIdentified( hdl->key());
    executeGlobalConstraints( hdl->key());
 
    if (mVerbose)
